@@ -1,2 +1,15 @@
 import ThriftVerif.Props.C19
 #print axioms Props.C19.facts_match
+#print axioms Props.C19.inv
+#print axioms Props.C19.no_panic
+#print axioms Props.C19.no_deadlock
+#print axioms Props.C19.termination
+#print axioms Props.C19.terminates_within
+#print axioms Props.C19.return_means_quiescent
+#print axioms Props.C19.success_means_all_written
+#print axioms Props.C19.success_written_perm
+#print axioms Props.C19.failure_reported
+#print axioms Props.C19.returned_error_genuine
+#print axioms Props.C19.no_double_write
+#print axioms Props.C19.written_own_content
+#print axioms Props.C19.semaphore_bound
